@@ -688,7 +688,11 @@ func valNameD(v ssa.Value, d int) string {
 		for _, a := range x.Call.Args {
 			args = append(args, valNameD(a, d+1))
 		}
-		return n + "(" + strings.Join(args, ",") + ")"
+		if _, isBuiltin := x.Call.Value.(*ssa.Builtin); isBuiltin {
+			return n[len("builtin:"):] + "(" + strings.Join(args, ",") + ")"
+		}
+		// two calls of the same function are different values: keep them apart
+		return n + "(" + strings.Join(args, ",") + ")@" + x.Name()
 	case *ssa.Extract:
 		return valNameD(x.Tuple, d+1) + "#" + string(rune('0'+x.Index))
 	case *ssa.Lookup:
@@ -790,6 +794,32 @@ func guardsAt(b *ssa.BasicBlock) []Atom {
 		}
 	}
 	sort.Slice(out, func(i, j int) bool { return out[i].String() < out[j].String() })
+	return out
+}
+
+// rawGuard is a dominating branch condition with its polarity.
+type rawGuard struct {
+	Cond     ssa.Value
+	Positive bool
+}
+
+// rawGuardsAt returns the branch conditions (as SSA values) known to hold in block b.
+func rawGuardsAt(b *ssa.BasicBlock) []rawGuard {
+	var out []rawGuard
+	for _, a := range b.Parent().Blocks {
+		if len(a.Instrs) == 0 {
+			continue
+		}
+		iff, ok := a.Instrs[len(a.Instrs)-1].(*ssa.If)
+		if !ok {
+			continue
+		}
+		for idx := 0; idx < 2; idx++ {
+			if edgeDominates(a, idx, b) {
+				out = append(out, rawGuard{iff.Cond, idx == 0})
+			}
+		}
+	}
 	return out
 }
 
